@@ -653,8 +653,19 @@ pub fn files(ex: &mut Exec) -> R<()> {
             }
         }
     }
+    // safety: iterators that are still alive (any seqno; one opened at SeqNo::MAX is above every watermark)
+    for li in &ex.iters {
+        for f in &li.files {
+            if !f.exists() {
+                return Err(format!(
+                    "file {f:?} of the version that {} was opened on was deleted while the iterator is still alive",
+                    li.desc
+                ));
+            }
+        }
+    }
     // reclamation
-    if ex.snaps.is_empty() && t.version_free_list_len() == 0 {
+    if ex.snaps.is_empty() && ex.iters.is_empty() && t.version_free_list_len() == 0 {
         reclamation(ex, &cur, cur_id, "quiescent (free list empty, no snapshot)")?;
         ex.stats.bump("files.reclamation_checked");
         if ex.installs > ex.installs_at_open {
